@@ -56,7 +56,7 @@ PROPS = {
         "vx": ["fetch_run", "refs_verify"],
         "kx": [],
         "technique": "Verus sink precondition on the extracted FetchState::run: repository::update may only see tips of namespaces that the validation oracle accepted (loop invariant over the validation loop, prune contract); Verus contract on SignedRefs::verify (signature by the namespace key over the canonical text, identity root names this repository)",
-        "explanation": "FetchState::run (the whole validation loop with all four DelegateStatus arms, continue/early-return paths) is verified: at the single call that writes to the git repository, every non-blocked remote among the advertised signed-refs remotes that still has tips was reported valid by sigrefs::validate; FetchState::prune is proved to remove exactly that remote's tips/ids/sigrefs. SignedRefs::verify/verified accept only when the ed25519 check of the claimed key over Refs::canonical succeeds and refs/rad/root resolves to an identity document whose blob id is this repository's id.",
+        "explanation": "FetchState::run (the whole validation loop with all four DelegateStatus arms, continue/early-return paths) is verified: at the single call that writes to the git repository, every non-blocked remote among the advertised signed-refs remotes that still has tips was reported valid by sigrefs::validate and its advertised rad/sigrefs is neither behind nor diverged from the stored one (delegate or not); FetchState::prune is proved to remove exactly that remote's tips/ids/sigrefs. SignedRefs::verify/verified accept only when the ed25519 check of the claimed key over Refs::canonical succeeds and refs/rad/root resolves to an identity document whose blob id is this repository's id.",
         "not_decided": "Cached::validate_remote (the ref-by-ref comparison) and DataRefs::prepare_updates are assumed oracles/stand-ins here; the iterator chains computing the delegate key set are stand-ins; the protocol stages (network, in-memory refdb) are arbitrary; that a namespace left out of `tips` is byte-for-byte untouched by libgit2 is outside any contract.",
     },
     "C02": {
